@@ -234,7 +234,7 @@ theorem fastaBody_noCR (b : Bytes) (h : noCR b = true) : fastaBody b = b.filter 
     by_cases h10 : c = 10
     · subst h10; simp [fastaBody_cons_nl, ih hr, isNotNL]
     · have hc : isNotNL c = true := by simp [isNotNL, h10]
-      simp [fastaBody_cons c r h10 h.1, ih hr, List.filter_cons, hc]
+      simp [fastaBody_cons c r h10 h.1, ih hr, hc]
 
 theorem crlf_append (a b : Bytes) : crlf (a ++ b) = crlf a ++ crlf b := by simp [crlf]
 
@@ -250,7 +250,7 @@ theorem fastaBody_crlf (b : Bytes) (h : noCR b = true) : fastaBody (crlf b) = b.
       simp [this, fastaBody_crnl, ih hr, isNotNL]
     · have : crlf (c :: r) = c :: crlf r := by simp [crlf, h10]
       have hc : isNotNL c = true := by simp [isNotNL, h10]
-      simp [this, fastaBody_cons c _ h10 h.1, ih hr, List.filter_cons, hc]
+      simp [this, fastaBody_cons c _ h10 h.1, ih hr, hc]
 
 
 /-! ### wrap.Force -/
@@ -390,11 +390,11 @@ theorem span_notGt (a rest : Bytes) (ha : ∀ c ∈ a, notGt c = true) (hr : rec
       have : notGt c = false := by
         have : c = 62 := by simpa [recEnd] using hr
         simp [notGt, this]
-      simp [List.takeWhile_cons, List.dropWhile_cons, this]
+      simp [this]
   | cons c a ih =>
     have hc := ha c (by simp)
     have := ih (fun x hx => ha x (by simp [hx]))
-    simp [List.takeWhile_cons, List.dropWhile_cons, hc, this]
+    simp [hc, this]
 
 theorem lineSplit_lf (d X : Bytes) (h : descOk d = true) : lineSplit (d ++ 10 :: X) = (d, X) := by
   unfold lineSplit
